@@ -67,12 +67,13 @@ type finding struct {
 }
 
 var (
-	mu        sync.Mutex
-	recFile   *os.File
-	known     map[string]bool
-	knownOnce sync.Once
-	sampleN   int
-	testName  string
+	mu         sync.Mutex
+	recFile    *os.File
+	known      map[string]bool
+	knownOnce  sync.Once
+	sampleN    int
+	testName   string
+	prevReplay string
 )
 
 // Root is the /verif directory.
@@ -168,6 +169,13 @@ func writeReplay(prop, hash string, c any, out *Outcome) string {
 	}
 	os.MkdirAll(dir, 0o755)
 	p := filepath.Join(dir, fmt.Sprintf("%s-%s.json", prop, hash))
+	// rapid re-runs the property while it shrinks a failure: every later failing case of this process is a smaller
+	// version of the earlier one, so only the latest replay file is kept
+	if prevReplay != "" && prevReplay != p {
+		os.Remove(prevReplay)
+		os.Remove(prevReplay + ".diag.txt")
+	}
+	prevReplay = p
 	b, _ := json.MarshalIndent(map[string]any{"property": prop, "part": testName, "case": c, "violations": out.Violations}, "", " ")
 	os.WriteFile(p, b, 0o644)
 	if out.Artifacts != "" {
